@@ -34,7 +34,7 @@ def configs(tier):
                         for par in ("plain", "sym"):
                             if q and tr in ("scale025", "scale3") and (par == "sym" or n1 + n2 > 2 or be == "pyx"):
                                 continue
-                            if q and spike and par == "sym" and n1 + n2 > 3:
+                            if q and spike and n1 + n2 > 3 and (par == "sym" or be == "pyx" or tr == "scale2"):
                                 continue
                             yield dict(name="%s-%s-%s-%s-%d+%d" % (be, meas, tr, par, n1, n2), backend=be, meas=meas,
                                        tr=tr, par=par, n1=n1, n2=n2, fork=spike, validate=3,
